@@ -663,6 +663,15 @@ class MemorizedFunc(Logger):
             coerce_mmap=self.mmap_mode is not None,
         )
 
+    def _func_code_key(self):
+        """Key of the place where the code of this function is recorded."""
+        location = self.store_backend.location
+        if isinstance(location, (str, os.PathLike)):
+            # The same directory can be spelled in several ways (relative
+            # path, './', symbolic link...).
+            location = os.path.realpath(location)
+        return location, self.func_id
+
     def _hash_func(self):
         """Hash a function to key the online cache"""
         # The code object itself, not its hash: code objects that differ only
@@ -691,9 +700,7 @@ class MemorizedFunc(Logger):
             func_hash = self._hash_func()
             try:
                 _FUNCTION_HASHES[self.func] = func_hash
-                _LAST_FUNC_CODE_WRITERS[
-                    (self.store_backend.location, self.func_id)
-                ] = func_hash
+                _LAST_FUNC_CODE_WRITERS[self._func_code_key()] = func_hash
             except TypeError:
                 # Some callable are not hashable
                 pass
@@ -716,7 +723,7 @@ class MemorizedFunc(Logger):
                 if func_hash == _FUNCTION_HASHES[
                     self.func
                 ] and func_hash == _LAST_FUNC_CODE_WRITERS.get(
-                    (self.store_backend.location, self.func_id)
+                    self._func_code_key()
                 ):
                     return True
         except TypeError:
